@@ -160,8 +160,8 @@ impl Prop for C02 {
     }
     fn runs(&self, tier: Tier) -> u64 {
         match tier {
-            Tier::Quick => 260,
-            Tier::Thorough => 4000,
+            Tier::Quick => 1500,
+            Tier::Thorough => 30000,
         }
     }
     fn rule(&self) -> &'static str {
@@ -238,6 +238,8 @@ impl Prop for C02 {
         let mut history = vec![];
         let mut interesting = false;
         let mut forgot_since_prune = false;
+        // pack -> simulated time (s) at the start of the prune after which it was first seen marked
+        let mut marked_at: BTreeMap<String, i64> = BTreeMap::new();
 
         macro_rules! fail {
             ($fp:expr, $d:expr) => {{
@@ -373,15 +375,10 @@ impl Prop for C02 {
                     // marks before this prune: pack -> time of the mark (seconds)
                     let before = sim.store.files();
                     let view_before = StoreView::build(&key, &before);
-                    let mut marks: BTreeMap<String, i64> = BTreeMap::new();
-                    for f in view_before.index_files.values() {
-                        for p in &f.packs_to_delete {
-                            if let Some(t) = p.time {
-                                let e = marks.entry(id_hex(&p.id)).or_insert(i64::MIN);
-                                *e = (*e).max(t.as_second());
-                            }
-                        }
-                    }
+                    // (the mark times are the simulator's own observations, not the times the index records)
+                    let _ = &view_before;
+                    let marks: BTreeMap<String, i64> = marked_at.clone();
+                    let prune_start = interpose::clock_now() / 1_000_000_000;
                     let digest_before = files_digest(&before);
                     let mode = sim.draw_mode(scheduled, &[0, 1], false);
                     history.push(format!("prune{} {:?}", if scheduled { "(scheduled)" } else { "" }, pspec));
@@ -418,6 +415,12 @@ impl Prop for C02 {
                     }
                     // (2) independent audit: every referenced blob physically present and indexed live
                     let view = StoreView::build(&key, &after);
+                    // update the observed marks: newly marked packs got their mark during this prune
+                    let now_marked: std::collections::BTreeSet<String> = view.index_files.values().flat_map(|f| f.packs_to_delete.iter().map(|p| id_hex(&p.id))).collect();
+                    marked_at.retain(|p, _| now_marked.contains(p));
+                    for p in &now_marked {
+                        let _ = marked_at.entry(p.clone()).or_insert(prune_start);
+                    }
                     if let Some(e) = view.errors.first() {
                         fail!("C02/stored-file-does-not-decode", e.clone());
                     }
